@@ -651,3 +651,23 @@ CHECKS["C02"]["post"] = c02_post
 CHECKS["C01"]["post"] = c01_post
 CHECKS["C12"]["post"] = c12_post
 CHECKS["C11"]["post"] = c11_post_thorough
+
+# ---- families added after the fourth seeding round and the reach report (appended to the rule texts)
+_ADDED = {
+    "C01": "Also: 64 definite argument-list faults of the library's tags and blocks (missing / doubled / trailing pieces, arguments on closing tags, faults behind an else) that must be rejected wherever they are inserted; Parser::parse_file must give the verdict of parse on the file's text, and a missing or non-UTF-8 file is an error.",
+    "C04": "Capture bodies inside loops may raise break/continue (the capture still binds what its body printed up to there).",
+    "C06": "Also: pool arrays holding nil / empty-string / array elements (contains with non-scalar needles); every generated case node evaluated again inside a loop over several targets; member tests after an assign and after a capture re-bound the name over the caller's object.",
+    "C07": "Two further path forms hand the path to a partial as an include and as a render argument (all index variables defined: the partial sees the denoted value; the last one undefined: the tag fails or binds nil).",
+    "C08": "The render-for scenario also tests forloop.parentloop inside the partial (the caller's loop is not its parent).",
+    "C09": "Results go through Template::render as well as render_to (they must agree); the designed pool has a template printing more than 10 KB before a data-chosen failure and a case with overlapping arms keyed on the data.",
+    "C11": "Each pair is also compared through Value / ValueCow / ValueViewCmp / ScalarCow against bare Rust scalars, &str / String / KString / KStringCow and Date / DateTime values; the pool has same-key objects whose entries pull in opposite directions and date-times that fall on another day in UTC.",
+    "C12": "Also: bare Rust scalars (i8..u32, i64, f32, f64, bool, &str, String, KString, KStringCow), Scalar and ScalarCow as views; the ArrayView / ObjectView interfaces (size, values, keys, iter, get, contains_key, first, last) of every container view; integer texts read into u64 / usize / i64 / u32 / Option<u64> / Vec<u64> (exact or rejected); a 'Rust shapes' family (narrow integers, f32, char, newtype / tuple / unit structs, tuples, arrays, unit enum variants, integer-keyed maps, narrowing rejections).",
+    "C13": "The script pool includes characters whose upper-case form is wider or narrower in UTF-8 (U+0149, dotless i, long s, the fi ligature, U+0390, U+01C6).",
+    "C16": "strip_html additionally over all strings of length <= 7 (quick 6) over {<, >, double quote, single quote, a, =, space, LF}.",
+    "C18": "The empty path is observed too (names nothing under every layering).",
+    "C19": "One scenario in six gives a partial invisible characters / white space at its edges; one in four is additionally probed through a monitor tag that asks the runtime's partial store contains / names / try_get / get for present, broken, missing and '.liquid'-suffixed names under every policy (answers fixed by the source; what try_get hands out renders like include).",
+    "C20": "All shared templates also apply strip_html, date, split|sort|join|upcase|truncate, escape_once and replace|url_encode to per-data inputs long enough to be worth caching; every 50th round is a hammer round (one small hot template, four data objects, 8 threads x 1500 calls).",
+}
+for _k, _v in _ADDED.items():
+    CHECKS[_k]["rule"] = CHECKS[_k]["rule"].replace(" distinct = ", " " + _v + " distinct = ", 1)
+CHECKS["C17"]["rule"] += " Also (checked in the worker): date-times near midnight in every offset against the calendar date they show and its neighbours, through the Value API in both directions and through a template."
